@@ -204,7 +204,19 @@ def install_solver(solver, sync=False):
     return restore
 
 
-def run_case(acc, outcomes, default, replies, early, cache, threads, via_main=False, sync=False, latecb=False):
+def companion(kind):
+    """a second test contract of the same project (A*: processed before V, Z*: after): its only test passes trivially (`good`), or its
+    setUp() reverts, so that its selected test cannot pass (`badsetup`: halmos reports no result for it at all)"""
+    pos, what = kind.split("-")
+    name = ("A" if pos == "first" else "Z") + what.capitalize()
+    setup = ["STOP"] if what == "good" else e2e.revert0()
+    return e2e.Contract(name, {"setUp()": setup, "check_c()": ["STOP"]})
+
+
+COMPANIONS = (None, "first-good", "last-good", "first-badsetup", "last-badsetup")
+
+
+def run_case(acc, outcomes, default, replies, early, cache, threads, via_main=False, sync=False, latecb=False, comp=None):
     import halmos.__main__ as M
 
     solver = ScriptedSolver(replies)
@@ -245,7 +257,9 @@ def run_case(acc, outcomes, default, replies, early, cache, threads, via_main=Fa
 
     cmd = "scripted-solver"
     name = f"paths={outcomes}+{default} replies={replies} early={int(early)} cache={int(cache)} threads={threads}{' main' if via_main else ''}{' replies-first' if sync else ''}{' callbacks-last' if latecb else ''}"
-    case = {"outcomes": outcomes, "default": default, "replies": replies, "early": early, "cache": cache, "threads": threads, "main": via_main, "sync": sync, "latecb": latecb}
+    case = {"outcomes": outcomes, "default": default, "replies": replies, "early": early, "cache": cache, "threads": threads, "main": via_main, "sync": sync, "latecb": latecb, "comp": comp}
+    if comp:
+        name += f" companion={comp}"
     want = reference_verdict(outcomes, default, replies)
     c = mk_contract(outcomes, default)
     try:
@@ -255,15 +269,21 @@ def run_case(acc, outcomes, default, replies, early, cache, threads, via_main=Fa
                 argv.append("--early-exit")
             if cache:
                 argv.append("--cache-solver")
-            res, out, logs, exc = e2e.run_main([c], argv=argv)
+            res, out, logs, exc = e2e.run_main([c] + ([companion(comp)] if comp else []), argv=argv)
             acc.count("main_runs")
             if res is None:
                 acc.violation(f"main-crash:{name}", f"{name}: _main raised {exc!r}: {out[-300:]}", case)
                 return
             code = res.exitcode
-            acc.outcome(("main", want, code != 0))
+            acc.outcome(("main", want, code != 0, comp))
+            if comp and comp.endswith("badsetup"):
+                if code == 0:
+                    acc.violation(f"exitcode:{name}", f"{name}: process exit code 0 although the selected test check_c() of the companion contract did not pass (its setUp() reverts)", case)
+                else:
+                    acc.state(name)
+                return
             if (want != 0) != (code != 0):
-                acc.violation(f"exitcode:{name}", f"{name}: process exit code {code}, but the reference verdict of the only selected test is {want} ({'PASS' if want == 0 else 'not PASS'})", case)
+                acc.violation(f"exitcode:{name}", f"{name}: process exit code {code}, but the reference verdict of check_v is {want} ({'PASS' if want == 0 else 'not PASS'}){' and the companion test passes' if comp else ''}", case)
             else:
                 acc.state(name)
             return
@@ -344,7 +364,8 @@ def cases(tier):
     for outcomes, replies in ((["panic"], ["sat"]), (["panic"], ["unsat"]), (["panic"], ["unknown"]), (["panic"], ["garbage"]), (["success"], ["unsat"]), (["stuck"], ["unsat"]), (["stuck"], ["sat"]),
                               (["revert"], ["unsat"]), (["failflag"], ["sat"]), (["failflag"], ["crash"]), (["panic", "panic"], ["unsat", "sat"]), (["panic", "stuck"], ["unsat", "unknown"])):
         for default in ("success", "revert"):
-            out.append({"outcomes": outcomes, "default": default, "replies": replies, "early": False, "cache": False, "threads": 1, "main": True})
+            for comp in COMPANIONS:
+                out.append({"outcomes": outcomes, "default": default, "replies": replies, "early": False, "cache": False, "threads": 1, "main": True, "comp": comp})
     return out
 
 
@@ -361,7 +382,7 @@ def run_shard(shard):
     hdriver.install_uid()
     acc = Acc(max_violations=30)
     for c in shard["cases"]:
-        run_case(acc, c["outcomes"], c["default"], c["replies"], c["early"], c["cache"], c["threads"], c["main"], c.get("sync", False), c.get("latecb", False))
+        run_case(acc, c["outcomes"], c["default"], c["replies"], c["early"], c["cache"], c["threads"], c["main"], c.get("sync", False), c.get("latecb", False), c.get("comp"))
     if shard["cases"]:
         c = shard["cases"][0]
         acc.sample({"paths": c["outcomes"] + [c["default"]], "solver_replies": c["replies"], "early_exit": c["early"], "cache_solver": c["cache"], "reference_verdict": reference_verdict(c["outcomes"], c["default"], c["replies"])})
@@ -386,6 +407,6 @@ def replay(case):
     hdriver.install_logging()
     hdriver.install_uid()
     acc = Acc()
-    run_case(acc, case["outcomes"], case["default"], case["replies"], case["early"], case["cache"], case["threads"], case.get("main", False), case.get("sync", False), case.get("latecb", False))
+    run_case(acc, case["outcomes"], case["default"], case["replies"], case["early"], case["cache"], case["threads"], case.get("main", False), case.get("sync", False), case.get("latecb", False), case.get("comp"))
     v = acc.result()["violations"]
     return {"violated": bool(v), "obs": [x["what"] for x in v][:3], "key": v[0]["key"] if v else ""}
